@@ -284,7 +284,7 @@ def rule_aggproto(P) -> RuleResult:
     if len(calls) != 1 or unparse(calls[0].func.value) != ul.target.id or len(calls[0].args) != 2 \
             or unparse(calls[0].args[1]) != target:
         fail('update', f'every aggregate node must be updated with (store, {target}); found `{unparse(calls[0]) if calls else "nothing"}`', ul)
-    else:
+    if calls and calls[0].args:
         storevar = unparse(calls[0].args[0])
     # store = aggregates[key]; key = tuple(c_expr(context) for c_expr in NONAGG)
     container = keyvar = None
@@ -841,6 +841,9 @@ def rule_fromand(P) -> RuleResult:
                     return False
                 if src == 'EvalAnd' and len(e.args) == 1 and isinstance(e.args[0], (ast.List, ast.Tuple)):
                     return ('And',) + tuple(m.ev(x, st) for x in e.args[0].elts)
+                if src[:1].isupper():
+                    # some other node constructor: kept symbolic, compared with the specification below
+                    return (src,) + tuple(unparse(a) for a in e.args)
                 return NotImplemented
             mach = finite.Machine(call=callh, expr=lambda e, st, m: finite.Sym(unparse(e)) if isinstance(e, ast.Attribute) else NotImplemented,
                                   names={'self': finite.Sym('self'), 'node': finite.Sym('node')})
